@@ -58,12 +58,15 @@ class variable_font_post_format:
     bounded_only = True
     gen = G.gen_vf
     native_call = G.run_vf
-    n_quick = 2
-    n_thorough = 2
+    n_quick = 4
+    n_thorough = 4
     ensures = {
         # keep_glyph_names reaches the post table of a variable build as well: format 3 unless
-        # names were requested
-        "post-format-follows-keep-glyph-names": lambda keep_names, result: result["exit"] == 0
+        # names were requested (C07 speaks of TrueType-flavoured fonts: for CFF2 output only the
+        # "no names unless requested" half is demanded)
+        "post-format-follows-keep-glyph-names": lambda keep_names, otf, result: result["exit"] == 0
         and result.get("has_fvar") is True
-        and result.get("post") == (2.0 if keep_names else 3.0),
+        and (result.get("post") == (2.0 if keep_names else 3.0) or (otf and keep_names)),
+        # the output file name decides the outline flavour, for variable fonts too
+        "outline-flavour-follows-the-output-file": lambda otf, result: result.get("outlines") == (["CFF2"] if otf else ["glyf"]),
     }
